@@ -2,6 +2,7 @@ import ScVerif.Base.Line
 import ScVerif.C17.Threads
 import ScVerif.C17.SerialLemmas
 import ScVerif.C17.Adapters
+import ScVerif.C17.Pipeline
 /-!
 Driver handler for C17.
 
@@ -246,6 +247,79 @@ def handlePull (trait : String) (n : Nat) (evs : List (Nat × List Nat)) (failAt
       (pullRunFail onoffReduceChanges n failAt (evs.map fun ev => (ev.1, ev.2.map onoffOf))))
   | _ => none
 
+
+/-! ## the Pull pipeline: `pipe <trait> <n> <allowed> <retAfter> <steps>`
+
+`steps`: `,`-separated `<op>=<observation>`; ops: `start` (nothing), `p<i>:<k>` (device `i` reports the value
+message number `k` stands for; `p<i>:x`: it fails), `ok` / `sf` (the subscriber's parked Send returns nil /
+an error), `cc` (the subscriber cancels).  After each op the model's internal steps are run to EVERY point
+of quiescence they can reach (`Pipe.settle`), and the set of states is cut down to those that look like
+the observation the harness made on the real goroutines at its point of quiescence:
+`<lanes>;<loop>;<forwarded>` - per device `i|s|e` (waiting / inside `server.Send` / returned) and the number
+of its Sends that returned nil; `run|send|ret` for `PullX`; the values the subscriber was sent.
+Answer: `ok left=<threads of the members not ended in the final state(s)>`, or
+`!unreachable step=<k> …` when no point of quiescence of the model looks like the observation. -/
+
+def showLaneObs (l : Pipe.Lane V) : String :=
+  (match l.h with | .idle => "i" | .sending _ => "s" | .ended => "e") ++ toString l.acc
+
+def pipeObs (show1 : Option V → String) (c : Pipe.Cfg V) : String :=
+  dash (".".intercalate (c.lanes.map showLaneObs)) ++ ";"
+    ++ (match c.loop with | .inSend => "send" | .returned => "ret" | _ => "run") ++ ";"
+    ++ dash (".".intercalate (c.st.sent.map show1))
+
+def pipeSteps [DecidableEq V] (P : Pipe.Params V) (show1 : Option V → String) :
+    List (Pipe.Cfg V) → Nat → List (Option (Pipe.Lbl V) × String × String) → String
+  | cs, _, [] => "ok left=" ++ "|".intercalate ((cs.map (·.left)).eraseDups.map toString)
+  | cs, k, (lbl, name, obs) :: rest =>
+    let cs1 := match lbl with
+      | none => cs
+      | some l => cs.filterMap fun c => Pipe.step P c l
+    let qs := Pipe.settle P cs1
+    let ms := qs.filter fun c => pipeObs show1 c == obs
+    if ms.isEmpty then
+      "!unreachable step=" ++ toString k ++ " op=" ++ name ++ " observed=" ++ obs ++ " possible="
+        ++ dash ("|".intercalate ((qs.map (pipeObs show1)).eraseDups))
+    else pipeSteps P show1 ms (k + 1) rest
+
+def parsePipeOp? (val : Nat → V) (n : Nat) (s : String) : Option (Option (Pipe.Lbl V)) :=
+  match s with
+  | "start" => some none
+  | "ok" => some (some .sendOk)
+  | "sf" => some (some .sendFail)
+  | "cc" => some (some .cancel)
+  | _ =>
+    match s.toList with
+    | 'p' :: rest =>
+      match (String.ofList rest).splitOn ":" with
+      | [i, v] => do
+        let i ← parseNat? i
+        if i ≥ n then none
+        if v = "x" then pure (some (.poke i none))
+        else do
+          let k ← parseNat? v
+          pure (some (.poke i (some (val k))))
+      | _ => none
+    | _ => none
+
+def parsePipeStep? (val : Nat → V) (n : Nat) (s : String) : Option (Option (Pipe.Lbl V) × String × String) :=
+  match s.splitOn "=" with
+  | [op, obs] => do
+    let l ← parsePipeOp? val n op
+    pure (l, op, obs)
+  | _ => none
+
+def handlePipe (trait : String) (n allowed retAfter : Nat) (steps : List String) : Option String :=
+  if retAfter > n then none else
+  match trait with
+  | "onoff" => do
+    let st ← steps.mapM (parsePipeStep? onoffOf n)
+    pure (pipeSteps ⟨true, allowed, retAfter, onoffReduceChanges⟩ (fun v => (v.map showOnOff).getD "nil") [Pipe.Cfg.init n] 0 st)
+  | "light" => do
+    let st ← steps.mapM (parsePipeStep? levelOf n)
+    pure (pipeSteps ⟨true, allowed, retAfter, lightReduceChanges⟩ (fun v => (v.map showRat).getD "nil") [Pipe.Cfg.init n] 0 st)
+  | _ => none
+
 def isPerm (order : List Nat) (n : Nat) : Bool :=
   order.length == n && (List.range n).all fun i => order.contains i
 
@@ -281,6 +355,13 @@ def handle (toks : List String) : String :=
       let failAt ← parseNat? failAt
       if evs.any (fun ev => ev.1 ≥ n) then none
       handlePull trait n evs failAt
+    r.getD "!bad-op"
+  | ["pipe", trait, n, allowed, retAfter, steps] =>
+    let r : Option String := do
+      let n ← parseNat? n
+      let allowed ← parseNat? allowed
+      let retAfter ← parseNat? retAfter
+      handlePipe trait n allowed retAfter (steps.splitOn ",")
     r.getD "!bad-op"
   | _ => "!bad-op"
 
